@@ -114,6 +114,24 @@ CHECKS = {
         "bound, C08-2 HTTP/1 half-close) are reported and matched specifically",
         "DESIGN.md §4 C08",
     ),
+    "C09": (
+        "exploration",
+        "Hypothesis-generated multiplexed responses under generated WINDOW_UPDATE / SETTINGS / "
+        "PRIORITY / RST_STREAM operation sequences; oracle = own flow-control ledger over the "
+        "decoded frames in causal order, per-stream prefix/completion/END_STREAM accounting, "
+        "progress invariant at quiescent points, step-counting spin detectors on both loops",
+        "1..6 concurrent streams (chunkings up to several windows, delays), client initial "
+        "windows 0 / 1 / small / default / 1 MiB, max frame sizes, credit in arbitrary increments "
+        "and order at stream and connection level and via SETTINGS up and down, priority trees "
+        "(dependencies, exclusive, PRIORITY before HEADERS), resets at arbitrary points: no DATA "
+        "frame may exceed the ledger's stream window, connection window or max frame size; "
+        "delivered bytes are an in-order prefix; with ample credit every live stream completes "
+        "with exactly one END_STREAM; at quiescence nothing sendable is held back; the loop "
+        "does not spin.",
+        "h2 library (client role) encodes the client's frames; one recorded third-party finding "
+        "(C09-1 priority cycle) excluded by construction",
+        "DESIGN.md §4 C09",
+    ),
     "C10": (
         "exploration",
         "Hypothesis-generated WebSocket message sequences x byte-level fragmentation x "
